@@ -42,8 +42,18 @@ def exhaustive_strings(maxlen=4):
             yield "".join(t)
 
 
+ASCII = [chr(c) for c in range(32, 127)]
+# substrings that are comment / escape / separator syntax in SOME text format: an argument is data, none of them may matter
+TOKENS = ["//", "/*", "*/", "#", "##", "--", ";", "\\n", "\\\"", "\"\"", " \" ", "\\\\", "\\ ", "${", "%s", "\\x00", "\\u{41}", "'", "`", "\r\n"]
+
+
 def rand_string(rng, maxlen=12, nul=False):
     pool = ALPHABET * 3 + EXTRA + (['\x00'] if nul else [])
+    r = rng.random()
+    if r < 0.2:      # any printable ASCII (a character special to some future syntax is found only if it is drawn at all)
+        pool = pool + ASCII * 2
+    elif r < 0.35:
+        pool = pool + TOKENS * 3
     return "".join(rng.choice(pool) for _ in range(rng.randint(0, maxlen)))
 
 
